@@ -10,6 +10,8 @@ import Lessm.Model.ColorFn
 import Lessm.Model.Nest
 import Lean.Data.Json
 import Lessm.Model.Batch
+import Lessm.Model.Term
+import Lessm.Model.Import
 import Lessm.Spec.VarsSpec
 import Lessm.Spec.MediaSpec
 import Lessm.Model.Mixin
@@ -515,6 +517,98 @@ def run (payload : String) : String :=
     | .error e => "bad-payload " ++ e
 end BatchIO
 
+namespace TermIO
+open Lean Lessm.Term
+
+partial def tokOfJson (j : Json) : Except String Tok := do
+  match j.getObjVal? "l" with
+  | .ok l => pure (.lit (← l.getStr?))
+  | .error _ =>
+    match j.getObjVal? "r" with
+    | .ok r => pure (.ref (← r.getStr?))
+    | .error _ => do
+        let n ← (← j.getObjVal? "n").getArr?
+        pure (.node (← n.toList.mapM tokOfJson))
+
+def toks (j : Json) : Except String (List Tok) := do (← j.getArr?).toList.mapM tokOfJson
+
+def vars (payload : String) : String :=
+  match Json.parse payload with
+  | .error e => "bad-json " ++ e
+  | .ok j =>
+    let r : Except String String := do
+      let envj ← (← j.getObjVal? "env").getArr?
+      let env ← envj.toList.mapM (fun e => do
+        let a ← e.getArr?
+        match a.toList with
+        | [n, v] => pure ((← n.getStr?), (← toks v))
+        | _ => throw "env")
+      let ts ← toks (← j.getObjVal? "ts")
+      pure (match eval env ts with
+        | .ok v => (Json.mkObj [("ok", Json.str (String.join v))]).compress
+        | .error .recursive => (Json.mkObj [("err", Json.str "recursive")]).compress
+        | .error (.unknown n) => (Json.mkObj [("err", Json.str ("unknown " ++ n))]).compress)
+    match r with
+    | .ok s => s
+    | .error e => "bad-payload " ++ e
+
+def imports (payload : String) : String :=
+  match Json.parse payload with
+  | .error e => "bad-json " ++ e
+  | .ok j =>
+    let r : Except String String := do
+      let fj ← (← j.getObjVal? "files").getArr?
+      let files ← fj.toList.mapM (fun e => do
+        let a ← e.getArr?
+        match a.toList with
+        | [n, us] => do
+            let units ← (← us.getArr?).toList.mapM (fun u => do
+              match u.getObjVal? "rule" with
+              | .ok t => pure (Unit'.rule (← t.getStr?))
+              | .error _ => pure (Unit'.imp (← (← u.getObjVal? "imp").getStr?)))
+            pure ((← n.getStr?), units)
+        | _ => throw "file")
+      let root ← (← j.getObjVal? "root").getStr?
+      let (out, errs) := compileFile files root
+      let ej := Json.arr (errs.toArray.map (fun e => match e with
+        | .tooDeep => Json.str "toodeep"
+        | .missing f => Json.str ("missing " ++ f)))
+      pure (Json.mkObj [("out", match out with | some o => Json.arr (o.toArray.map Json.str) | none => Json.null), ("errs", ej)]).compress
+    match r with
+    | .ok s => s
+    | .error e => "bad-payload " ++ e
+end TermIO
+
+namespace ImpIO
+open Lean Lessm.Imp
+
+def load (payload : String) : String :=
+  match Json.parse payload with
+  | .error e => "bad-json " ++ e
+  | .ok j =>
+    let r : Except String String := do
+      let fj ← (← j.getObjVal? "files").getArr?
+      let files ← fj.toList.mapM (fun e => do
+        let a ← e.getArr?
+        match a.toList with
+        | [n, us] => do
+            let units ← (← us.getArr?).toList.mapM (fun u => do
+              match u.getObjVal? "u" with
+              | .ok t => pure (Unit'.other (← t.getStr?))
+              | .error _ => pure (Unit'.imp (← (← u.getObjVal? "i").getStr?) (← (← u.getObjVal? "raw").getStr?)))
+            pure (normalize (splitSlash (← n.getStr?)), units)
+        | _ => throw "file")
+      let root ← (← j.getObjVal? "root").getStr?
+      let (out, errs) := loadRoot files (normalize (splitSlash root))
+      let ej := Json.arr (errs.toArray.map (fun e => match e with
+        | .tooDeep => Json.str "toodeep"
+        | .missing f => Json.str ("missing " ++ String.intercalate "/" f)))
+      pure (Json.mkObj [("out", match out with | some o => Json.arr (o.toArray.map Json.str) | none => Json.null), ("errs", ej)]).compress
+    match r with
+    | .ok s => s
+    | .error e => "bad-payload " ++ e
+end ImpIO
+
 def handle (op : String) (payload : String) : String :=
   let args := (payload.splitOn " ").filter (· ≠ "")
   match op, args with
@@ -551,6 +645,9 @@ def handle (op : String) (payload : String) : String :=
     | "c18.scan", [j] => StrIO.run j
     | "c11.fmt", [j] => PrintIO.run j
     | "c16.run", [j] => BatchIO.run j
+    | "c14.load", [j] => ImpIO.load j
+    | "c20.vars", [j] => TermIO.vars j
+    | "c20.imports", [j] => TermIO.imports j
     | "c17.unknown", name :: rest => Builtins.callUnknown name rest
     | "c06.guard", [g] =>
         match parseGuard g with
